@@ -111,7 +111,7 @@ theorem rep_failed_recv_rolls_back (evs : List RepEv) :
 /-- the earlier shape: two concurrent receives both succeed and the second overwrites the first's reply address -/
 theorem rep_check_then_act_counterexample :
     repWellFormed (RepSys.run { claim := false }
-      [.peerRequests 7, .peerRequests 8, .recvBegin 1, .recvBegin 2, .recvGot 1, .recvGot 2, .sendReply 1]).log = false := by
+      [.peerRequests 7, .peerRequests 8, .recvBegin 1, .recvBegin 2, .recvGot 1 0, .recvGot 2 0, .sendReply 1]).log = false := by
   decide
 
 -- tie to the source -------------------------------------------------------------------------------------
